@@ -2,6 +2,7 @@ package sim
 
 import (
 	"fmt"
+	"strconv"
 
 	"go.pennock.tech/tabular"
 )
@@ -23,6 +24,9 @@ func (w *World) newErr(src string) *SimErr {
 // sink is nil, or once the detached row `sink` is attached.
 func (w *World) expect(e error, sink *mRow) {
 	if sink != nil && !sink.attached {
+		if se, ok := e.(*SimErr); ok && se.Batch == 0 {
+			se.Batch = sink.handle + 1
+		}
 		sink.pending = append(sink.pending, e)
 		return
 	}
@@ -251,10 +255,14 @@ func (w *World) CheckC11(op string) *Violation {
 			continue
 		}
 		seen[e]++
-		if p, ok := lastPos[se.Src]; ok && p > se.ID {
+		// order of occurrence is demanded among the errors of one source that
+		// reached the table the same way: directly, or together with one row when
+		// it was attached (a row's earlier errors necessarily arrive later)
+		okey := se.Src + "/" + strconv.Itoa(se.Batch)
+		if p, ok := lastPos[okey]; ok && p > se.ID {
 			return v("table-order", "errors from source %s are out of order (%v after #%d)", se.Src, se, p)
 		}
-		lastPos[se.Src] = se.ID
+		lastPos[okey] = se.ID
 	}
 	want := map[error]int{}
 	for _, e := range w.expErrs {
